@@ -8,8 +8,11 @@ comment contains the word.
 import math
 import re
 
-LAG_RE = re.compile(r'^\s*([A-Za-z_][A-Za-z_0-9]*)\s*\(\s*[kt]\s*-\s*1\s*\)\s*$')
-LAG_ANY = re.compile(r'\(\s*[kt]\s*-\s*1\s*\)')
+# the three documented spellings of a lag: x(k-1), x(t-1) and the tokenizer-spaced 'x (k -1 )' - nothing more lenient:
+# 'tanh(t - 1)' or 'x*(-1)' are ordinary expressions
+_LAG_SPELLING = r'(?:\(k-1\)|\(t-1\)| \(k -1 \))'
+LAG_RE = re.compile(r'^\s*([A-Za-z_][A-Za-z_0-9]*)\s*' + _LAG_SPELLING + r'\s*$')
+LAG_ANY = re.compile(_LAG_SPELLING)
 IC_RE = re.compile(r'^([A-Za-z_][A-Za-z_0-9]*)\(0\)$')
 
 
